@@ -281,27 +281,19 @@ func (s *Store) logWrite(verb string, k Key, sub, body string, effective bool) {
 // commit stores newRaw under k, enforcing API-server semantics relative to oldRaw (nil on create).
 // sub is "" for the main resource and "status" for the status sub-resource.
 func (s *Store) commit(verb string, k Key, gvk schema.GroupVersionKind, oldRaw, newRaw []byte, sub, body string) ([]byte, error) {
-	norm, err := s.normalise(gvk, newRaw)
-	if err != nil {
-		return nil, apierrors.NewBadRequest(err.Error())
-	}
-	nm := toMap(norm)
+	nm := toMap(newRaw)
 	nmd := metaOf(nm)
+	oldRV := ""
 	if oldRaw == nil {
 		s.uid++
 		nmd["uid"] = fmt.Sprintf("uid-%04d", s.uid)
 		nmd["generation"] = int64(1)
 		nmd["creationTimestamp"] = s.now()
 		delete(nmd, "deletionTimestamp")
-		if hasStatusSubresource(gvk) {
-			// status cannot be set on create through the main resource
-			if _, ok := nm["status"]; ok && !keepStatusOnCreate(gvk) {
-				delete(nm, "status")
-			}
-		}
 	} else {
 		om := toMap(oldRaw)
 		omd := metaOf(om)
+		oldRV, _ = omd["resourceVersion"].(string)
 		// immutable metadata
 		for _, f := range []string{"uid", "creationTimestamp", "deletionTimestamp", "deletionGracePeriodSeconds", "generation", "name", "namespace"} {
 			if v, ok := omd[f]; ok {
@@ -328,36 +320,40 @@ func (s *Store) commit(verb string, k Key, gvk schema.GroupVersionKind, oldRaw, 
 					delete(nm, "status")
 				}
 			}
-			if !jsonEq(om["spec"], nm["spec"]) {
-				g, _ := omd["generation"].(float64)
-				nmd["generation"] = int64(g) + 1
-			}
+			// generation is bumped iff the normalised spec changes; compare after normalisation below
 		}
 	}
-	// finalizer-aware deletion: a deleting object whose finalizers are gone disappears
-	if _, deleting := nmd["deletionTimestamp"]; deleting {
-		fin, _ := nmd["finalizers"].([]interface{})
-		if len(fin) == 0 {
-			delete(s.objs, k)
-			s.Events = append(s.Events, Event{Type: "Delete", Key: k, Old: oldRaw})
-			s.logWrite(verb, k, sub, body, true)
-			return oldRaw, s.postWrite(true)
-		}
-	}
-	// renormalise after surgery, compare ignoring volatile fields
+	newRV := s.nextRV()
+	nmd["resourceVersion"] = newRV
 	out, _ := json.Marshal(nm)
-	out, err = s.normalise(gvk, out)
+	out, err := s.normalise(gvk, out)
 	if err != nil {
 		return nil, apierrors.NewBadRequest(err.Error())
 	}
-	if oldRaw != nil && bytes.Equal(stripVolatile(out), stripVolatile(oldRaw)) {
-		s.logWrite(verb, k, sub, body, false)
-		return oldRaw, s.postWrite(false)
+	if oldRaw != nil && sub != "status" {
+		// generation: compare the normalised spec sections textually
+		if !bytes.Equal(section(out, "spec"), section(oldRaw, "spec")) {
+			fm := toMap(out)
+			g, _ := metaOf(fm)["generation"].(float64)
+			metaOf(fm)["generation"] = int64(g) + 1
+			out, _ = json.Marshal(fm)
+			out, _ = s.normalise(gvk, out)
+		}
 	}
-	fm := toMap(out)
-	metaOf(fm)["resourceVersion"] = s.nextRV()
-	out, _ = json.Marshal(fm)
-	out, _ = s.normalise(gvk, out)
+	// finalizer-aware deletion: a deleting object whose finalizers are gone disappears
+	if bytes.Contains(out, []byte(`"deletionTimestamp"`)) && !bytes.Contains(out, []byte(`"finalizers"`)) {
+		delete(s.objs, k)
+		s.Events = append(s.Events, Event{Type: "Delete", Key: k, Old: oldRaw})
+		s.logWrite(verb, k, sub, body, true)
+		return oldRaw, s.postWrite(true)
+	}
+	if oldRaw != nil {
+		same := bytes.Replace(oldRaw, []byte(`"resourceVersion":"`+oldRV+`"`), []byte(`"resourceVersion":"`+newRV+`"`), 1)
+		if bytes.Equal(same, out) {
+			s.logWrite(verb, k, sub, body, false)
+			return oldRaw, s.postWrite(false)
+		}
+	}
 	s.objs[k] = out
 	if oldRaw == nil {
 		s.Events = append(s.Events, Event{Type: "Create", Key: k, New: out})
@@ -366,6 +362,15 @@ func (s *Store) commit(verb string, k Key, gvk schema.GroupVersionKind, oldRaw, 
 	}
 	s.logWrite(verb, k, sub, body, true)
 	return out, s.postWrite(true)
+}
+
+// section returns the raw JSON of one top-level field of a normalised object ("" if absent).
+func section(raw []byte, field string) []byte {
+	var m map[string]json.RawMessage
+	if json.Unmarshal(raw, &m) != nil {
+		return nil
+	}
+	return m[field]
 }
 
 func hasStatusSubresource(gvk schema.GroupVersionKind) bool {
@@ -379,12 +384,23 @@ func hasStatusSubresource(gvk schema.GroupVersionKind) bool {
 // keepStatusOnCreate: the environment creates Pods / ReplicaSets with their status in one go.
 func keepStatusOnCreate(gvk schema.GroupVersionKind) bool { return true }
 
+// typed decode cache: raw byte slices are immutable and replaced on every write, so the address of
+// the first byte identifies a stored version; decoding is by far the most expensive operation.
+var decodeCache = map[*byte]runtime.Object{}
+
 func (s *Store) fill(raw []byte, gvk schema.GroupVersionKind, obj runtime.Object) error {
 	if u, ok := obj.(*unstructured.Unstructured); ok {
 		m := toMap(raw)
 		u.Object = m
 		u.SetGroupVersionKind(gvk)
 		return nil
+	}
+	if len(raw) > 0 {
+		if c, ok := decodeCache[&raw[0]]; ok && reflect.TypeOf(c) == reflect.TypeOf(obj) {
+			cp := c.DeepCopyObject()
+			reflect.ValueOf(obj).Elem().Set(reflect.ValueOf(cp).Elem())
+			return nil
+		}
 	}
 	// zero the target, then decode
 	if err := zero(obj); err != nil {
@@ -394,6 +410,12 @@ func (s *Store) fill(raw []byte, gvk schema.GroupVersionKind, obj runtime.Object
 		return err
 	}
 	obj.GetObjectKind().SetGroupVersionKind(gvk)
+	if len(raw) > 0 {
+		if len(decodeCache) > 200000 {
+			decodeCache = map[*byte]runtime.Object{}
+		}
+		decodeCache[&raw[0]] = obj.DeepCopyObject()
+	}
 	return nil
 }
 
